@@ -326,8 +326,8 @@ def encB (o : Opts) : Ty → Val → Option Bytes
   | .error, .nil => some [0xff, 0xff]
   -- encodeAny (encode.go:414): the dynamic value is encoded with encodeType = true
   | .any, .nil => some [edtNil]
-  | .any, .any .error .nil => none
-  | .any, .any t v => if t.encodable && t != .any then (encB o t v).map fun body => hdr o t ++ body else none
+  | .any, .any t v =>
+      if t.encodable && t != .any && !(t == .error && v == .nil) then (encB o t v).map fun body => hdr o t ++ body else none
   -- unnamed slice (encode.go:203)
   | .slice _, .nil => some [edtNil]
   | .slice t, .list vs => (encs o t vs).map fun body => edtSlice :: be32 vs.length ++ body
